@@ -1,0 +1,76 @@
+//go:build verif
+// +build verif
+
+package masswallet
+
+import (
+	"github.com/massnetorg/mass-core/massutil"
+	"github.com/massnetorg/mass-core/wire"
+	"massnet.org/mass-wallet/masswallet/txmgr"
+)
+
+// This file exists only under the "verif" build tag. It gives an external
+// conformance harness access to the chain follower and to a few pure helpers.
+// It adds no behaviour to the wallet.
+
+// VerifGate, when set before Start, is called at the named scheduling points
+// of the follower and worker goroutines (see verifGate call sites).
+var VerifGate func(h *NtfnsHandler, point string)
+
+func verifGate(h *NtfnsHandler, point string) {
+	if g := VerifGate; g != nil {
+		g(h, point)
+	}
+}
+
+// VerifHandler returns the chain follower of this wallet manager.
+func (w *WalletManager) VerifHandler() *NtfnsHandler { return w.ntfnsHandler }
+
+// VerifProcessBlock runs the follower's block step synchronously.
+func (h *NtfnsHandler) VerifProcessBlock(b *wire.MsgBlock) error { return h.processConnectedBlock(b) }
+
+// VerifReceiveTx runs the follower's unconfirmed-transaction step synchronously.
+func (h *NtfnsHandler) VerifReceiveTx(tx *wire.MsgTx) error { return h.proccessReceivedTx(tx) }
+
+// VerifBestBlock returns the follower's in-memory copy of the synced tip.
+func (h *NtfnsHandler) VerifBestBlock() txmgr.BlockMeta {
+	h.memMtx.Lock()
+	defer h.memMtx.Unlock()
+	return h.bestBlock
+}
+
+// VerifMempool returns the follower's in-memory set of known pending txs.
+func (h *NtfnsHandler) VerifMempool() []wire.Hash {
+	h.memMtx.Lock()
+	defer h.memMtx.Unlock()
+	ret := make([]wire.Hash, 0, len(h.mempool))
+	for k := range h.mempool {
+		ret = append(ret, k)
+	}
+	return ret
+}
+
+// VerifQueued returns the number of queued tip and tx notifications.
+func (h *NtfnsHandler) VerifQueued() (blocks, txs int) { return len(h.queueBlock), len(h.queueMsgTx) }
+
+// VerifTaskQueueLen returns the number of queued background tasks (-1 before the worker started).
+func (h *NtfnsHandler) VerifTaskQueueLen() int {
+	if h.taskChan == nil {
+		return -1
+	}
+	return len(h.taskChan.C)
+}
+
+// VerifOptOutputs exposes the coin-selection function.
+func VerifOptOutputs(amount massutil.Amount, utxos []*txmgr.Credit) ([]*txmgr.Credit, massutil.Amount, massutil.Amount, error) {
+	return optOutputs(amount, utxos)
+}
+
+// VerifTopK exposes the top-K pre-selector: it returns the retained items and K.
+func VerifTopK(want massutil.Amount, items []*txmgr.Credit) ([]*txmgr.Credit, int) {
+	s := newTopKSelector(want)
+	for _, it := range items {
+		s.submit(it)
+	}
+	return s.Items(), s.K()
+}
